@@ -65,6 +65,8 @@ func VerifC17_BackToBack() {
 			a := vAnswer(k1, first, cc1, body1)
 			copy(a[6:10], refPutLE32(vU32()))
 			copy(a[10:14], refPutLE32(vU32()))
+			a[2] = vByte() // and an arbitrary RMCP sequence number
+
 			return a, nil
 		}
 		return vAnswer(k2, cmdA, cc2, body2), nil
@@ -79,6 +81,7 @@ func VerifC17_BackToBack() {
 
 	vAssert(len(used.sent) == 2 && len(fresh.sent) == 1, "c17-one-datagram-per-command")
 	vAssert(refBytesEq(used.sent[1], fresh.sent[0]), "c17-same-request-bytes-as-on-a-fresh-connection")
+	vAssert(refBytesEq(used.sent[1][:4], []byte{0x06, 0x00, 0xff, 0x07}), "c06-rmcp-header-version-6-sequence-ff-class-ipmi-after-any-reply")
 	vAssert(refLE32(used.sent[1][6:10]) == 0 && refLE32(used.sent[1][10:14]) == 0, "c09-sessionless-id-and-sequence-zero-after-any-reply")
 	vAssert((errA == nil) == (errB == nil), "c17-same-error-verdict-as-on-a-fresh-connection")
 	vAssert(codeA == codeB, "c17-same-completion-code-as-on-a-fresh-connection")
